@@ -372,9 +372,9 @@ def run(ctx: vlib.Ctx):
     ctx.translate(PROJECT)
     proj = ctx.lean(PROJECT, PROPS)
     # the seal theorems take "a change of content changes the emitted text" as a hypothesis about the emitter; the text
-    # engine proves it for flat documents (C15_flat_emit_injective): build and audit that module too
+    # engine proves it for flat documents, block trees, META, sections and list values (C15_*_emit_injective): build and audit those modules too
     ctx.translate("text")
-    ctx.lean("text", ["Octave.Props.C01roundtrip", "Octave.Props.C01tree"], extra_targets=())
+    ctx.lean("text", ["Octave.Props.C01roundtrip", "Octave.Props.C01tree", "Octave.Props.C01meta", "Octave.Props.C01sections", "Octave.Props.C01lists"], extra_targets=())
     changed = vlib.fingerprints_changed(ctx.prop, ANCHORS)
     if changed:
         ctx.widen = max(ctx.widen, 8)
